@@ -12,6 +12,7 @@ import (
 
 	"github.com/paulmach/orb"
 	"github.com/paulmach/osm"
+	"verifharness/internal/c15mp"
 	"verifharness/internal/vio"
 )
 
@@ -42,9 +43,42 @@ type Case struct {
 	T1       int     `json:"t1"`
 	T2       int     `json:"t2"`
 	TMax     int     `json:"tmax"`
+	Members  []GMem  `json:"members"` // kind "group": the member list handed to mputil.Group
 	TS       int     `json:"ts"`      // the element's own Timestamp: -1 = zero time, else symbolic time
 	Com      int     `json:"com"`     // the element's Committed: -1 = nil, else symbolic time
 	Profile  int     `json:"profile"` // rendering parameter: which time profile to use
+}
+
+// GMem is one member of a kind "group" case: tgt "way" = the case's way, "gone" = a way that is not in
+// the way map, "node" = a node member.
+type GMem struct {
+	Tgt  string `json:"tgt"`
+	Role string `json:"role"`
+	Ori  int    `json:"ori"`
+}
+
+// Seg is one segment returned by mputil.Group.
+type Seg struct {
+	Idx  int      `json:"idx"`
+	Ori  int      `json:"ori"`
+	Rev  bool     `json:"rev"`
+	Line [][2]int `json:"line"`
+}
+
+// GotGroup is what a kind "group" case records.
+type GotGroup struct {
+	Outer   []Seg    `json:"outer"`
+	Inner   []Seg    `json:"inner"`
+	Tainted bool     `json:"tainted"`
+	Crash   bool     `json:"crash"`
+	AErr    string   `json:"aerr"`    // ApplyUpdatesUpTo(t1) on a copy of the way
+	Applied [][2]int `json:"applied"` // LineString() of that copy
+	State   State    `json:"state"`   // the way after Group
+}
+
+type RecGroup struct {
+	Case json.RawMessage `json:"case"`
+	Got  GotGroup        `json:"got"`
 }
 
 // State is the observable state of an element: its children and its pending updates.
@@ -62,7 +96,8 @@ type Res struct {
 }
 
 type Geom struct {
-	At      [][2]int `json:"at"`      // LineStringAt(t) on a fresh copy
+	At0     [][2]int `json:"at0"`     // LineStringAt(t) on the element before any copy of it was updated
+	At      [][2]int `json:"at"`      // LineStringAt(t) on the element after ApplyUpdatesUpTo(t) ran on a copy of it
 	Applied [][2]int `json:"applied"` // LineString() of the copy after ApplyUpdatesUpTo(t)
 	State   State    `json:"state"`   // the way after LineStringAt(t)
 	Crash   bool     `json:"crash"`
@@ -79,7 +114,7 @@ type Got struct {
 	UpTo2 []Upd    `json:"upto2"`
 	ByTS  []Upd    `json:"byts"`
 	ByIdx []Upd    `json:"byidx"`
-	Own   [][2]int `json:"own"` // [ts, com] of the element after a12, a2, LineStringAt(t1), LineStringAt(t2)
+	Own   [][2]int `json:"own"` // [ts, com] of the copies behind a12 and a2 and of the element itself, at the end
 }
 
 type Rec struct {
@@ -234,7 +269,7 @@ type element interface {
 }
 
 func (r R) build(c *Case) element {
-	if c.Kind == "way" {
+	if c.Kind == "way" || c.Kind == "group" {
 		w := &osm.Way{ID: 7, Version: 3, Visible: true, Updates: r.updsOf(c.Updates)}
 		w.Timestamp, w.Committed = r.ownOf(c)
 		for _, ch := range c.Children {
@@ -251,6 +286,22 @@ func (r R) build(c *Case) element {
 			Orientation: orb.Orientation(ch.Ori)})
 	}
 	return rel
+}
+
+// copyOf is "a copy" of an element as Go code makes one: the struct is copied and the child list, which
+// ApplyUpdatesUpTo writes to, is duplicated; the update list is the same slice value.
+func copyOf(e element) element {
+	switch x := e.(type) {
+	case *osm.Way:
+		c := *x
+		c.Nodes = append(osm.WayNodes(nil), x.Nodes...)
+		return &c
+	case *osm.Relation:
+		c := *x
+		c.Members = append(osm.Members(nil), x.Members...)
+		return &c
+	}
+	return nil
 }
 
 func (r R) state(e element) State {
@@ -297,25 +348,79 @@ func (r R) apply(e element, t int) (res Res) {
 	return res
 }
 
-func (r R) geom(c *Case, t int, applied element) (g Geom, own [2]int) {
-	g.At, g.Applied = [][2]int{}, [][2]int{}
-	e := r.build(c)
+// lineAt is LineStringAt(t) of a way ([] for relations or after a panic).
+func (r R) lineAt(e element, t int) (ls [][2]int, crash bool) {
+	ls = [][2]int{}
 	w, ok := e.(*osm.Way)
 	if !ok {
-		g.State = State{Children: []Child{}, Pending: []Upd{}}
-		return g, r.ownAbs(e)
+		return ls, false
 	}
+	defer func() {
+		if p := recover(); p != nil {
+			ls, crash = [][2]int{}, true
+		}
+	}()
+	return absLine(w.LineStringAt(r.timeOf(t, r.prof.qLoc))), false
+}
+
+// geom queries the geometry at time t on the element itself after `applied`, a copy of it, went through
+// ApplyUpdatesUpTo(t); at0 is the same query made before any copy was updated.
+func (r R) geom(orig element, t int, applied element, at0 [][2]int, crash0 bool) (g Geom) {
+	g.At0, g.Applied, g.Crash = at0, [][2]int{}, crash0
+	var c bool
+	g.At, c = r.lineAt(orig, t)
+	g.Crash = g.Crash || c
+	if w, ok := applied.(*osm.Way); ok {
+		func() {
+			defer func() {
+				if p := recover(); p != nil {
+					g.Crash = true
+				}
+			}()
+			g.Applied = absLine(w.LineString())
+		}()
+	}
+	g.State = r.state(orig)
+	return g
+}
+
+// group runs mputil.Group on the case's way.
+func (r R) group(c *Case, line []byte) RecGroup {
+	var g GotGroup
+	orig := r.build(c).(*osm.Way)
+	cp := copyOf(orig)
+	g.AErr = r.apply(cp, c.T1).Err
+	g.Applied = absLine(cp.(*osm.Way).LineString())
+	var ms osm.Members
+	for _, m := range c.Members {
+		mem := osm.Member{Type: osm.TypeWay, Ref: int64(orig.ID), Role: m.Role, Orientation: orb.Orientation(m.Ori)}
+		switch m.Tgt {
+		case "gone":
+			mem.Ref = 8
+		case "node":
+			mem.Type, mem.Ref = osm.TypeNode, 1
+		}
+		ms = append(ms, mem)
+	}
+	segs := func(in []c15mp.Segment) []Seg {
+		out := make([]Seg, 0, len(in))
+		for _, s := range in {
+			out = append(out, Seg{Idx: int(s.Index), Ori: int(s.Orientation), Rev: s.Reversed, Line: absLine(s.Line)})
+		}
+		return out
+	}
+	g.Outer, g.Inner = []Seg{}, []Seg{}
 	func() {
 		defer func() {
 			if p := recover(); p != nil {
 				g.Crash = true
 			}
 		}()
-		g.At = absLine(w.LineStringAt(r.timeOf(t, r.prof.qLoc)))
-		g.Applied = absLine(applied.(*osm.Way).LineString())
+		o, i, t := c15mp.Group(ms, map[osm.WayID]*osm.Way{orig.ID: orig}, r.timeOf(c.T1, r.prof.qLoc))
+		g.Outer, g.Inner, g.Tainted = segs(o), segs(i), t
 	}()
-	g.State = r.state(w)
-	return g, r.ownAbs(w)
+	g.State = r.state(orig)
+	return RecGroup{Case: line, Got: g}
 }
 
 func main() {
@@ -328,19 +433,27 @@ func main() {
 		r := R{profiles[(((c.Profile+*p)%len(profiles))+len(profiles))%len(profiles)]}
 		var g Got
 
-		e1 := r.build(&c)
+		if c.Kind == "group" {
+			return r.group(&c, line)
+		}
+
+		// One element; every call below runs on a copy of it (own child list, the same update list), the
+		// geometry queries run on the element itself.
+		orig := r.build(&c)
+		at01, c01 := r.lineAt(orig, c.T1)
+		at02, c02 := r.lineAt(orig, c.T2)
+		e1 := copyOf(orig)
 		g.A1 = r.apply(e1, c.T1)
-		var o1, o2 [2]int
-		g.G1, o1 = r.geom(&c, c.T1, e1) // LineString() of e1 is taken before the second call
+		g.G1 = r.geom(orig, c.T1, e1, at01, c01) // LineString() of e1 is taken before the second call
 		if g.A1.Err == "crash" {
 			g.A12 = Res{Err: "skipped", ErrIdx: -1, Children: []Child{}, Pending: []Upd{}}
 		} else {
 			g.A12 = r.apply(e1, c.T2)
 		}
-		e2 := r.build(&c)
+		e2 := copyOf(orig)
 		g.A2 = r.apply(e2, c.T2)
-		g.G2, o2 = r.geom(&c, c.T2, e2)
-		g.Own = [][2]int{r.ownAbs(e1), r.ownAbs(e2), o1, o2}
+		g.G2 = r.geom(orig, c.T2, e2, at02, c02)
+		g.Own = [][2]int{r.ownAbs(e1), r.ownAbs(e2), r.ownAbs(orig)}
 
 		g.Ls0 = [][2]int{}
 		if w, ok := r.build(&c).(*osm.Way); ok {
